@@ -393,8 +393,17 @@ def addr_v6_text(n: List[int]) -> bool:
 
 # ------------------------------------------------------------------ E1: Time
 class _Delta:
+    """timedelta of a whole-second instant as far as a Time encoder may look at it (days / seconds / microseconds fields or
+    total_seconds()); sub-second instants are concrete cases of time_boundaries"""
+
     def __init__(self, days, seconds):
-        self.days, self.seconds = days, seconds
+        self.days, self.seconds, self.microseconds = days, seconds, 0
+
+    def total_seconds(self):
+        return self.days * 86400 + self.seconds          # exact (an int where CPython returns an integral float)
+
+    def __floordiv__(self, other):
+        return (self.days * 86400 + self.seconds) // (other.days * 86400 + other.seconds)
 
 
 class _Instant(datetime.datetime):
@@ -444,9 +453,16 @@ def time_boundaries():
     bad = []
     pts = [ref, ref + datetime.timedelta(seconds=1), datetime.datetime(1970, 1, 1), datetime.datetime(1999, 12, 31, 23, 59, 59),
            datetime.datetime(2000, 2, 29, 12), datetime.datetime(2036, 2, 7, 6, 28, 15), datetime.datetime(2024, 2, 29, 23, 59, 59)]
+    # "whole seconds since 1900-01-01": the sub-second part of an instant is dropped, never rounded up
+    pts += [p.replace(microsecond=us) for p in (pts[0], pts[2], pts[4], datetime.datetime(2036, 2, 7, 6, 28, 15)) for us in (1, 499999, 500000, 500001, 999999)]
     for t in pts:
-        exp = int((t - ref).total_seconds())
-        a = EventTimestampAVP(t)
+        d = t - ref
+        exp = d.days * 86400 + d.seconds
+        try:
+            a = EventTimestampAVP(t)
+        except BaseException as e:       # noqa: a representable instant must be encoded
+            bad.append(f"{t}: raised {type(e).__name__}")
+            continue
         if a.data != exp.to_bytes(4, "big"):
             bad.append(str(t))
     over = datetime.datetime(2036, 2, 7, 6, 28, 16)
